@@ -70,7 +70,7 @@ PROPS = {
                 thorough=[R(checks=60000, shards=16, timeout=1500)]),
     "C12": dict(pkg="c12", level="exploration",
                 quick=[R(checks=20000)],
-                thorough=[R(checks=200000, shards=16, timeout=1500)]),
+                thorough=[R(checks=80000, shards=16, timeout=2400)]),
     "C13": dict(pkg="c13", level="exploration",
                 quick=[R(checks=600, shards=2), R(checks=100, shards=4, env={"VERIF_C13_DEV": "1"})],
                 thorough=[R(checks=4000, shards=16, timeout=1800)]),
